@@ -1453,6 +1453,11 @@ def catalogue():
         ('Functional-simple_functional-rn3w', "S.functional.functional.simple_functional(SP['rn3w'], fcall=lambda x: x.norm() ** 2, grad=lambda x: 2 * x)", False),
         ('PointwiseNorm-complex-raises', "odl.PointwiseNorm(odl.ProductSpace(SP['cdiscr3'], 2))", False),
         ('PointwiseNorm-inf-raises', "odl.PointwiseNorm(odl.ProductSpace(SP['discr4'], 2), exponent=float('inf'))", False),
+        ('FunctionalComp-MatrixOperator-weighted-space', "S.L2NormSquared(odl.rn(2)) * odl.MatrixOperator(np.array([[1.0, 2.0, -1.0], [0.5, 0.0, 3.0]]), domain=SP['rn3w'], range=odl.rn(2))", False),
+        ('FunctionalComp-MatrixOperator-weighted-space', "S.L2NormSquared(odl.rn(2)) * odl.MatrixOperator(np.array([[1.0, 2.0, -1.0], [0.5, 0.0, 3.0]]), domain=SP['rn3c'], range=odl.rn(2))", False),
+        ('FunctionalComp-MatrixOperator-weighted-space', "S.L2Norm(odl.rn(2)) * odl.MatrixOperator(np.array([[1.0, 2.0, -1.0, 0.0], [0.5, 0.0, 3.0, 1.0]]), domain=SP['discr4'], range=odl.rn(2))", False),
+        ('FunctionalComp-Gradient-discr', "S.L2NormSquared(odl.Gradient(SP['discr23']).range) * odl.Gradient(SP['discr23'])", False),
+        ('FunctionalComp-MatrixOperator-unweighted', "S.L2Norm(odl.rn(2)) * odl.MatrixOperator(np.array([[1.0, 2.0, -1.0], [0.5, 0.0, 3.0]]))", False),
         ('RosenbrockFunctional-rn', "S.RosenbrockFunctional(odl.rn(4), scale=2.0)", False),
         ('RosenbrockFunctional-weighted-space', "S.RosenbrockFunctional(SP['rn3w'], scale=2.0)", False),
         ('RosenbrockFunctional-weighted-space', "S.RosenbrockFunctional(SP['discr4'], scale=2.0)", False),
